@@ -11,7 +11,7 @@ import (
 )
 
 func init() {
-	for _, p := range []string{"c04", "c06", "c09"} {
+	for _, p := range []string{"c04", "c06", "c09", "c08"} {
 		p := p
 		cmds[p] = func(a []string) error { return runSrv(strings.ToUpper(p), a) }
 	}
@@ -144,6 +144,8 @@ func genSCase(r *drv.Rng, prof string) drv.SCase {
 	switch prof {
 	case "C09":
 		return genC09(g)
+	case "C08":
+		return genC08(g)
 	}
 	s1 := g.connect(true)
 	g.announce(s1, drv.U128{Hi: uint64(r.Intn(2)), Lo: uint64(1 + r.Intn(3))})
@@ -213,6 +215,98 @@ func genSCase(r *drv.Rng, prof string) drv.SCase {
 	}
 	g.add(drv.SStep{K: "get", Get: &drv.GetSpec{NI: "all", AFT: "ALL"}})
 	return c
+}
+
+// genC08: a primary builds RIB shapes biased to shared / missing / cyclic backup groups and
+// cross-instance references, then Flush requests walk the decision table.
+func genC08(g *srvGen) drv.SCase {
+	r := g.r
+	s := g.connect(true)
+	base := drv.U128{Hi: uint64(r.Intn(2)), Lo: uint64(2 + r.Intn(3))}
+	noElection := r.Chance(1, 8)
+	if !noElection {
+		g.announce(s, base)
+	}
+	el := &base
+	mk := func(op drv.OpSpec) {
+		op.ID = g.id()
+		op.Elec = el
+		g.add(drv.SStep{K: "ops", S: s, Ops: []drv.OpSpec{op}})
+	}
+	if !noElection {
+		for _, n := range []int{1, 2, 3} {
+			if n != 1 && r.Chance(1, 3) {
+				continue
+			}
+			for i := 1; i <= 1+r.Intn(2); i++ {
+				mk(drv.OpSpec{NI: n, Kind: "ADD", T: "nh", Key: uint64(i)})
+			}
+			ng := 1 + r.Intn(3)
+			for gi := 1; gi <= ng; gi++ {
+				op := drv.OpSpec{NI: n, Kind: "ADD", T: "nhg", Key: uint64(gi), NHs: [][2]uint64{{1, 1}}}
+				switch r.Intn(5) {
+				case 0: // shared backup
+					op.Bk = 3
+				case 1: // backup that is never installed
+					op.Bk = 7
+				case 2: // cyclic / self
+					op.Bk = uint64(1 + (gi % ng))
+				}
+				mk(op)
+			}
+			for i := 0; i < r.Intn(4); i++ {
+				op := drv.OpSpec{NI: n, Kind: "ADD", T: drv.Pick(r, "v4", "v6", "mpls"), NHG: uint64(1 + r.Intn(ng))}
+				switch op.T {
+				case "v4":
+					op.Key = uint64(1 + r.Intn(3))
+				case "v6":
+					op.Key = uint64(1 + r.Intn(2))
+				default:
+					op.Key = drv.Pick(r, uint64(100), 200)
+				}
+				if r.Chance(1, 3) {
+					op.NHGN = drv.Pick(r, 1, 2, 3)
+				}
+				mk(op)
+			}
+		}
+	}
+	nflush := 1 + r.Intn(3)
+	for i := 0; i < nflush; i++ {
+		f := &drv.FlushSpec{}
+		f.NI = drv.Pick(r, "all", "all", "name", "name", "name", "none")
+		f.Name = drv.Pick(r, 1, 2, 3, 1, 2, 4, 0)
+		switch r.Intn(6) {
+		case 0:
+			f.Elec = "none"
+		case 1:
+			f.Elec = "override"
+		default:
+			f.Elec = "id"
+			id := base
+			switch r.Intn(6) {
+			case 0:
+				id = drv.U128{}
+			case 1:
+				id = drv.U128{Hi: base.Hi, Lo: base.Lo - 1}
+			case 2:
+				id = drv.U128{Hi: base.Hi + 1, Lo: 0}
+			case 3:
+				if base.Hi > 0 {
+					id = drv.U128{Hi: base.Hi - 1, Lo: base.Lo + 5}
+				}
+			}
+			f.ID = &id
+		}
+		g.add(drv.SStep{K: "get", Get: &drv.GetSpec{NI: "all", AFT: "ALL"}})
+		g.add(drv.SStep{K: "flush", Flush: f})
+		g.add(drv.SStep{K: "get", Get: &drv.GetSpec{NI: "all", AFT: "ALL"}})
+		// deletion protection after the flush agrees with what remains: probe deletes
+		if !noElection {
+			mk(drv.OpSpec{NI: drv.Pick(r, 1, 2, 3), Kind: "DELETE", T: drv.Pick(r, "nh", "nhg"), Key: uint64(1 + r.Intn(2))})
+		}
+	}
+	return *g.c
 }
 
 // genC09: protocol-violation alphabet on up to three concurrently open sessions.
@@ -419,6 +513,12 @@ func runOracle(prop string, c drv.SCase, x *drv.SRun, obs []drv.SObs, snaps []st
 					}
 				}
 			}
+		case "flush":
+			if prop == "C08" {
+				if p := checkC08(st, o, i, el, before, after, x); p != "" {
+					return p
+				}
+			}
 		case "multi", "none":
 			if before != after {
 				return fmt.Sprintf("step %d: protocol violation (%s) changed server state", i, st.K)
@@ -472,6 +572,79 @@ func runOracle(prop string, c drv.SCase, x *drv.SRun, obs []drv.SObs, snaps []st
 				return fmt.Sprintf("operation %d of session %d has no terminal result, is not held, and its stream is still the primary's", op.ID, st.S)
 			}
 		}
+	}
+	return ""
+}
+
+// checkC08: the Flush decision table and effect, from the script alone.
+func checkC08(st drv.SStep, o drv.SObs, i int, el *electionTracker, before, after string, x *drv.SRun) string {
+	f := st.Flush
+	want := "F_OK"
+	switch {
+	case f.NI == "none":
+		want = "F_UNSPECIFIED_NETWORK_INSTANCE"
+	case f.Elec == "override":
+	case f.Elec == "none" && el.max != nil:
+		want = "F_UNSPECIFIED_ELECTION_BEHAVIOR"
+	case f.Elec == "none":
+	case el.max == nil:
+		want = "F_ELECTION_ID_IN_ALL_PRIMARY"
+	case f.ID.IsZero():
+		want = "F_INVALID_ELECTION_ID"
+	case f.ID.Less(*el.max):
+		want = "F_NOT_PRIMARY"
+	}
+	known := map[int]bool{1: true, 2: true, 3: true}
+	if want == "F_OK" && f.NI == "name" && !known[f.Name] {
+		want = "F_INVALID_NETWORK_INSTANCE"
+	}
+	split := func(snap string) (per map[string][]string, rest []string) {
+		per = map[string][]string{}
+		for _, l := range strings.Split(snap, "\n") {
+			if k := strings.Index(l, "|"); k > 0 && !strings.HasPrefix(l, "rc ") && !strings.HasPrefix(l, "held") && !strings.HasPrefix(l, "election") {
+				per[l[:k]] = append(per[l[:k]], l)
+			} else if !strings.HasPrefix(l, "rc ") {
+				rest = append(rest, l)
+			}
+		}
+		return
+	}
+	b, brest := split(before)
+	a, arest := split(after)
+	if strings.Join(brest, ";") != strings.Join(arest, ";") {
+		return fmt.Sprintf("step %d: Flush changed held operations or election state", i)
+	}
+	if want != "F_OK" {
+		if o.FlushSt != want {
+			return fmt.Sprintf("step %d: Flush %+v answered %s, the specification assigns %s", i, *f, o.FlushSt, want)
+		}
+		if before != after {
+			return fmt.Sprintf("step %d: rejected Flush (%s) changed the RIB", i, want)
+		}
+		return ""
+	}
+	sel := map[string]bool{}
+	if f.NI == "all" {
+		sel["DEFAULT"], sel["VRF-A"], sel["VRF-B"] = true, true, true
+	} else {
+		sel[drv.NINames[f.Name]] = true
+	}
+	removedAll := true
+	for n := range sel {
+		if len(a[n]) != 0 {
+			removedAll = false
+		}
+	}
+	for n, lines := range b {
+		if !sel[n] && strings.Join(lines, ";") != strings.Join(a[n], ";") {
+			return fmt.Sprintf("step %d: Flush of %v changed entries of instance %s", i, sel, n)
+		}
+	}
+	if !removedAll {
+		return fmt.Sprintf("step %d: authorised Flush left entries in a selected instance", i)
+	}
+	if o.FlushSt != "F_OK" {
+		return fmt.Sprintf("step %d: authorised Flush removed every entry of the selected instances but answered %s", i, o.FlushSt)
 	}
 	return ""
 }
@@ -532,6 +705,7 @@ func runSrv(prop string, args []string) error {
 	rules := map[string]string{
 		"C04": "multi-session scripts (connect / negotiate / announce / operate / disconnect, Get, Flush) with operation stamps drawn from {own last, highest, stale, future, none}; non-trivial = at least two sessions announced and at least one operation was rejected and one accepted; distinct by script text",
 		"C06": "one to three sessions, requests of 1..20 operations, held operations that later resolve or fail, empty/unknown instance names, primary hand-overs, RIB and FIB acknowledgement modes; non-trivial = some operation was held and acknowledged later, or a hand-over happened while operations were held; distinct by script text",
+		"C08": "a primary programs RIB shapes biased to shared / missing / cyclic backup groups and cross-instance references, then Flush requests over the decision table (instance none/all/name/unknown x election none/override/zero/lower/equal/higher, with and without server election state), Get before and after, delete probes; non-trivial = an authorised flush removed at least one entry while another instance kept entries, or a flush was rejected on a non-empty RIB; distinct by script text",
 		"C09": "message sequences over {params (every mode combination), election (zero/low/equal/high), operation (with/without id), multi-field, empty} on up to three concurrently open sessions; non-trivial = at least one RPC ended with a non-OK status; distinct by script text",
 	}
 	rep := drv.Report{Property: prop, Seed: *f.Seed, Shard: drv.ShardSize, Stats: map[string]int{}, Cases: len(cases), Rule: rules[prop]}
@@ -600,6 +774,8 @@ func runSrv(prop string, args []string) error {
 			nt = heldLater
 		case "C09":
 			nt = ends > 0
+		case "C08":
+			nt = accepted
 		}
 		if nt {
 			distinct[strings.Join(hs, ";")] = true
